@@ -106,9 +106,11 @@ package main
 //@   ensures #C14.finish-once-after-the-last-target built ==> calls(Finish) == 1
 //@   callsite buildTaskRunner
 //@     ghost built = result#1 == nil
+//@   ensures #C07.no-runner-no-success !built && calls(buildTaskRunner) == 1 ==> err != nil
 //@   loop 1 "range targets"
 //@     invariant #same c == c0 && c != nil && taskRunner != nil && runnerOK(taskRunner) && cfgLoaded() && compiledClosed() && len(targets) > 0
 //@     invariant #C07.no-failure-so-far !failed
+//@     invariant #C07.runner-built built
 //@     invariant #C10.no-dash-so-far beforeDash(targets, rangeindex + 1)
 //@   callsite runTarget
 //@     requires #C14.contexts-still-up calls(Finish) == 0
